@@ -185,7 +185,8 @@ class Origins:
             f = P.fns.get(callee_resolved(t)) or P.fns.get(callee_path(t))
             if f is None or f is self.fn or f['kind'] == 'Closure' or not module_private(f) or len(f['blocks']) > 60:
                 return None
-            if f['argc'] != len(t['args']) or re.match(r'^(std|core)::(result::Result|option::Option)<', f['ret']) or f['ret'] in ('()', 'bool'):
+            fallible = bool(re.match(r'^(std|core)::result::Result<', f['ret']))
+            if f['argc'] != len(t['args']) or re.match(r'^(std|core)::option::Option<', f['ret']) or f['ret'] in ('()', 'bool'):
                 return None
             args = [self.op_str(a, depth + 1, seen) for a in t['args']]
             sub = Origins(P.body(f), self.max_depth, resolve_upvars=self.resolve_upvars)
@@ -199,6 +200,12 @@ class Origins:
             # returns constants keeps its call form)
             if any(m not in s for m in marks):
                 return None
+            if fallible:
+                # a fallible helper is looked through only when its success value is one expression: `Ok(x)` as the last thing it does
+                # (`?` at the call site hands x on, exactly as if the body had been written in place)
+                if not (s.startswith('Result::Ok{0: ') and s.endswith('}') and '|Result::' not in s and 'Result::Err' not in s):
+                    return None
+                s = s[len('Result::Ok{0: '):-1]
             for m, a in zip(marks, args):
                 s = s.replace(m, a)
             return s if len(s) <= 600 else None
